@@ -170,13 +170,18 @@ def check(ctx, run):
             r3 = [r_ for r_ in interp.explore(pay, [], {}, self_obj=d3) if not r_["raises"]]
         except Unsupported as ex:
             raise AnalysisError(f"BaseDerivative.payoff with three clauses: {ex}")
-        v = r3[0]["value"] if len(r3) == 1 else None
-        t_ = v
-        ok = v is not None
-        for c_ in reversed(c3):
-            ok = ok and isinstance(t_, Op) and t_.op == "call" and t_.args[0] == c_ and len(t_.args) == 3 and t_.args[1] is d3
-            t_ = t_.args[2] if ok else None
-        ok = ok and isinstance(t_, Op) and t_.op == "abstract" and "payoff_fn" in str(t_.args[0])
+        if not r3:
+            raise AnalysisError("BaseDerivative.payoff with three clauses: no non-raising path")
+        ok = True
+        for r_ in r3:   # every path (a helper may branch on a memo it keeps) must give the same nesting
+            v = r_["value"]
+            t_ = v
+            for c_ in reversed(c3):
+                ok = ok and isinstance(t_, Op) and t_.op == "call" and t_.args[0] == c_ and len(t_.args) == 3 and t_.args[1] is d3
+                t_ = t_.args[2] if ok else None
+            ok = ok and isinstance(t_, Op) and t_.op == "abstract" and "payoff_fn" in str(t_.args[0])
+            if not ok:
+                break
     run.oblige("C12.R3", "BaseDerivative.payoff folds clause(self, payoff) over clauses() from payoff_fn()", ok, str(v)[:200])
     if not ok:
         run.fail(Finding("C12.R3", pay.qualname, str(v)[:200], "payoff() must apply every clause once, in iteration order, starting from payoff_fn()", file=str(prog.modules[pay.module].path), line=pay.node.lineno))
